@@ -114,7 +114,7 @@ Base(t) == CASE t \in {"Omaha", "Greek"} -> "StandardHigh" [] t = "Omaha8" -> "E
 KSeqs(s, k) == IF k > Cardinality(ToSetS(s)) \/ k < 0 THEN {} ELSE {SetToSeq(x) : x \in kSubset(k, ToSetS(s))}
 Legal(t, hole, board) ==
   CASE t \in {"Omaha", "Omaha8"} -> {a \o b : a \in KSeqs(hole, 2), b \in KSeqs(board, 3)}
-    [] t = "Greek" -> {hole \o b : b \in KSeqs(board, 3)}      \* stated for the two hole cards the game deals
+    [] t = "Greek" -> {hole \o b : b \in KSeqs(board, 3)}      \* both hole cards play: with fewer than two, nothing of five cards exists
     [] t \in {"Badugi", "StandardBadugi"} -> UNION {KSeqs(hole \o board, k) : k \in 1..4}
     [] t = "Kuhn" -> KSeqs(hole \o board, 1)
     [] OTHER -> KSeqs(hole \o board, 5)
